@@ -716,6 +716,7 @@ def r6(run: Run, src, g, em):
 
 
 def run(run: Run):
+    from .common import cached_guard as _cached_guard
     src = get_source()
     g = get_grammar(src)
     em = get_emission(src)
@@ -725,12 +726,12 @@ def run(run: Run):
     run.rule('C05.R4', 'separators are one class whose text nothing reads')
     run.rule('C05.R5', 'quote-delimited terminals cannot run over their closing quote')
     run.rule('C05.R6', 'every argument of every function production reaches the emitted code')
-    run.guard('C05.R1', r1, run, src, g)
-    run.guard('C05.R2', r2_any, run, src, g)
-    run.guard('C05.R3', r3, run, src, g)
-    run.guard('C05.R4', r4, run, src, g, em)
-    run.guard('C05.R5', r5, run, src, g)
-    run.guard('C05.R6', r6, run, src, g, em)
+    _cached_guard(run, 'C05.R1', r1, src, g)
+    _cached_guard(run, 'C05.R2', r2_any, src, g)
+    _cached_guard(run, 'C05.R3', r3, src, g)
+    _cached_guard(run, 'C05.R4', r4, src, g, em)
+    _cached_guard(run, 'C05.R5', r5, src, g)
+    _cached_guard(run, 'C05.R6', r6, src, g, em)
     # the lexer and the matcher keep no state between two parses: a memo or a table that survives a parse (in particular one
     # that is not cleared when a parse is rejected) splices parts of an earlier formula into a later one
     run.rule('C05.R7', 'lexer and matcher keep no state between parses (shared with C09.R4)')
@@ -759,13 +760,13 @@ def run(run: Run):
     run.rule('C05.R8', 'a workbook set again is read, lexed and parsed again (setter raises the dirty flag unconditionally; shared with C09.R1)')
     borrow(run, 'C05.R8', c09.r1_any, src)
     run.rule('C05.R9', 'the tail pattern of every terminal accepts a tail that starts with blanks')
-    run.guard('C05.R9', r9_tails_admit_blanks, run, src, g)
+    _cached_guard(run, 'C05.R9', r9_tails_admit_blanks, src, g)
     run.rule('C05.R10', 'the lexer tries the token classes on the formula text itself (only blanks at the ends are stripped)')
-    run.guard('C05.R10', r10_formula_text_untouched, run, src)
+    _cached_guard(run, 'C05.R10', r10_formula_text_untouched, src)
     from .common import check_rejections_propagate
     from ..callgraph import get_callgraph as _gcg
     run.rule('C05.R11', 'the rejection of a formula reaches the caller: no handler on the translation path turns it into a value')
-    run.guard('C05.R11', check_rejections_propagate, run, 'C05.R11', src, _gcg(src),
+    _cached_guard(run, 'C05.R11', check_rejections_propagate, 'C05.R11', src, _gcg(src),
               ['AstBuilder.parse', 'CompositeBaseToken.get', 'UndefinedToken.get'], 'a formula that does not fit the grammar')
     run.floor('C05.R11', 50)
     from .common import check_plumbing
@@ -773,7 +774,7 @@ def run(run: Run):
     from . import c11 as _c11, c12 as _c12, c13 as _c13, c14 as _c14, c15 as _c15, c16 as _c16, c17 as _c17
     run.rule('C05.R12', 'the argument lists each supported function accepts are the ones Excel defines (the confirmed reference of every '
                         'function: arity, optional arguments, what each argument is printed as)')
-    run.guard('C05.R12', check_plumbing, run, 'C05.R12', src, em, get_runtime(src),
+    _cached_guard(run, 'C05.R12', check_plumbing, 'C05.R12', src, em, get_runtime(src),
               _c11.FUNCS + _c12.FUNCS + _c13.FUNCS + _c14.FUNCS + _c15.FUNCS + _c16.FUNCS + _c17.FUNCS)
     run.floor('C05.R12', 40)
     run.floor('C05.R10', 2)
